@@ -7,6 +7,8 @@ DSP primitives as uninterpreted whole-array operators.
 import sys
 import types
 
+from fractions import Fraction
+
 import numpy as np
 import scipy.signal
 import z3
@@ -237,7 +239,7 @@ def _old_output(ctx, F, nc):
     return old_rows, old_b, fo
 
 
-def _expected_row(ctx, sr, h, ns, r, reject, labels, k_filter, out_dtype=np.int16):
+def _expected_row(ctx, sr, h, ns, r, reject, labels, k_filter, out_dtype=np.int16, wrot=None):
     """oracle: content of output row r (r < ns), as int16-cast terms per column"""
     import ibldsp.voltage as v
     ncv = NSITES
@@ -269,13 +271,13 @@ def _expected_row(ctx, sr, h, ns, r, reject, labels, k_filter, out_dtype=np.int1
             xv[inside, :] = spatial(xv[inside, :])
         else:
             xv = spatial(xv)
-        vals[name] = [arrays.cast_scalar(xv[c, r - fb] * mute[r - fb] * float(intnorm[c]), out_dtype) for c in range(ncv)]
+        vals[name] = [arrays.cast_scalar(xv[c, r - fb] * mute[r - fb] * float(intnorm[c]) * (1 if wrot is None else wrot), out_dtype) for c in range(ncv)]
     out = [ite(core.eq(b, L), vals["last"][c], vals["mid"][c]) for c in range(ncv)]
     out.append(np2env.raw_elem(r, ncv))       # sync column: the raw word, bit for bit
     return out, b, L
 
 
-def case_destripe(ctx, nproc, order, ns2add, reject, k_filter, max_batches, ns_min, append=False, stale=False, out_float32=False):
+def case_destripe(ctx, nproc, order, ns2add, reject, k_filter, max_batches, ns_min, append=False, stale=False, out_float32=False, wrot_scalar=False):
     import ibldsp.voltage as v
     import spikeglx
     F, ns, nc = _mk(ctx, max_batches, ns_min)
@@ -287,8 +289,10 @@ def case_destripe(ctx, nproc, order, ns2add, reject, k_filter, max_batches, ns_m
     labels = np.array([0.0, 3.0, 0.0]) if reject else None
     _LABELS[0] = labels
     nb_iter = [0]
+    wrot = ctx.real("wrot", Fraction(1, 2), 2) if wrot_scalar else None        # the documented scalar form of the whitening argument: an amplitude factor on the electrode channels
     res = ctx.call("destripe", v.decompress_destripe_cbin, FakePath("/d/x.imec0.ap.bin"), output_file=FakePath("/out/x.bin"), nbatch=NB, nprocesses=nproc,
-                   ns2add=ns2add, reject_channels=reject, k_filter=k_filter, compute_rms=True, append=append, **({"dtype": np.float32} if out_float32 else {}))
+                   ns2add=ns2add, reject_channels=reject, k_filter=k_filter, compute_rms=True, append=append, **({"dtype": np.float32} if out_float32 else {}),
+                   **({"wrot": wrot} if wrot_scalar else {}))
     ISZ = 4 if out_float32 else 2          # bytes per output sample
     out = F.get("/out/x.bin")
     if not ctx.oblige("output_file_exists", out is not None and bool(out.exists)):
@@ -312,7 +316,7 @@ def case_destripe(ctx, nproc, order, ns2add, reject, k_filter, max_batches, ns_m
     sr = spikeglx.Reader(FakePath("/d/x.imec0.ap.bin"))
     h = sr.geometry
     rr = ite(r < ns, r, ns - 1)            # padding rows repeat the last sample
-    exp, b, L = _expected_row(ctx, sr, h, ns, rr, reject, labels, k_filter, out_dtype=np.float32 if out_float32 else np.int16)
+    exp, b, L = _expected_row(ctx, sr, h, ns, rr, reject, labels, k_filter, out_dtype=np.float32 if out_float32 else np.int16, wrot=wrot)
     covered = False
     for k, rec in enumerate(recs):
         a = rec["array"]
@@ -376,6 +380,8 @@ def cases(tier):
                                                            "max_batches": 6, "ns_min": 8192, "append": True}, timeout_s=3400, max_paths=400))
     cs.append(Case("destripe_P1_over_stale_output", "case_destripe", {"nproc": 1, "order": None, "ns2add": 0, "reject": True, "k_filter": True,
                                                                      "max_batches": 4, "ns_min": 1024, "stale": True}, timeout_s=3400, max_paths=400))
+    cs.append(Case("destripe_P1_scalar_wrot", "case_destripe", {"nproc": 1, "order": None, "ns2add": 0, "reject": True, "k_filter": True,
+                                                               "max_batches": 4, "ns_min": 1024, "wrot_scalar": True, "out_float32": True}, timeout_s=3400, max_paths=400))
     cs.append(Case("destripe_P2_float32_output", "case_destripe", {"nproc": 2, "order": None, "ns2add": 0, "reject": True, "k_filter": True,
                                                                    "max_batches": 6, "ns_min": 8192, "out_float32": True}, timeout_s=3400, max_paths=400))
     cs.append(Case("destripe_P2_pad_car_noreject", "case_destripe", {"nproc": 2, "order": [1, 0], "ns2add": 3, "reject": False, "k_filter": False,
@@ -428,11 +434,12 @@ outs = {{}}
 append = {params.get('append', False)}
 stale = {params.get('stale', False)}
 odt = np.float32 if {params.get('out_float32', False)} else np.int16
+wrot = {('float(Fraction(%r))' % str(m.get('wrot'))) if params.get('wrot_scalar') else 'None'}
 def run(P):
     o = d / f'out{{P}}'; o.mkdir(exist_ok=True)
     if stale:          # the output of an earlier, longer run is already there
         np.full(((ns + ns2add) * 2 + 1000, nc), 77, dtype=np.int16).tofile(o / 'x.bin')
-    v.decompress_destripe_cbin(d / 'x.imec0.ap.bin', output_file=o / 'x.bin', nbatch=NB, nprocesses=P, ns2add=ns2add, reject_channels=reject, k_filter=k_filter, dtype=odt)
+    v.decompress_destripe_cbin(d / 'x.imec0.ap.bin', output_file=o / 'x.bin', nbatch=NB, nprocesses=P, ns2add=ns2add, reject_channels=reject, k_filter=k_filter, dtype=odt, wrot=wrot)
     return np.fromfile(o / 'x.bin', dtype=odt), o
 if append:
     first, o = run(P)
